@@ -55,11 +55,11 @@ def keysOf (prop : String) : List String :=
   else ["n", "held", "persisted", "radius", "maxkept", "dropped", "mindropped"]
 
 def clausesOf (prop : String) : List String :=
-  if prop == "C04" then ["get_only_put", "returned_bytes_stable", "put_error"]
+  if prop == "C04" then ["get_only_put", "get_returns_stored_until_pruned", "returned_bytes_stable", "put_error"]
   else if prop == "C05" then ["counter_ge_held", "held_le_cap", "prune_frees_5pct", "farthest_first", "put_error", "counter_ge_held_concurrent"]
   else if prop == "C06" then ["retained_within_radius", "radius_antitone", "refusal_exact"]
   else if prop == "C17" then ["open_radius_max_when_empty", "counter_ge_held"]
-  else ["get_only_put", "returned_bytes_stable", "put_error", "counter_ge_held", "held_le_cap", "prune_frees_5pct",
+  else ["get_only_put", "get_returns_stored_until_pruned", "returned_bytes_stable", "put_error", "counter_ge_held", "held_le_cap", "prune_frees_5pct",
         "farthest_first", "retained_within_radius", "radius_antitone", "refusal_exact", "open_radius_max_when_empty"]
 
 def stepAll (d : DS) (toks : List String) (impl : String) : DS × Res :=
@@ -111,7 +111,10 @@ def stepAll (d : DS) (toks : List String) (impl : String) : DS × Res :=
         | some p => v != p.2
         | none => true
       | _ => true
-    (d, { model := m, monitor := if bad then ["get_only_put"] else [], tags := ["get", if (get d.st be).isSome then "get-hit" else "get-miss"] })
+    -- "until that item is pruned": an item that is in the database must be returned
+    let hidden := impl == "notfound" && kv toks "present" == "1"
+    (d, { model := m, monitor := (if bad then ["get_only_put"] else []) ++ (if hidden then ["get_returns_stored_until_pruned"] else []),
+          tags := ["get", if (get d.st be).isSome then "get-hit" else "get-miss"] })
   | some "retained" =>
     -- the harness re-compares every slice ever returned by Get with the bytes it had when returned
     (d, { model := "changed=0", monitor := if impl == "changed=0" then [] else ["returned_bytes_stable"], tags := ["retained"] })
